@@ -29,6 +29,7 @@ def plan(tier):
         for w in ['conjugate', 'dual', 'symmetric_square', 'compose_irrep3']:
             I.append(inst(f"derived[{w},n=2,len<=3]", 'harness.c05', 'derived', dict(which=w, n=2, maxlen=3), weight=60, timeout_s=1800))
     I.append(inst("fox[n=2,len<=3]", 'harness.c05', 'fox', dict(n=2, maxlen=3), weight=18, timeout_s=600))
+    I.append(inst("fox[n=2,len<=2,generators assigned b then a]", 'harness.c05', 'fox', dict(n=2, maxlen=2, order='ba'), weight=8, timeout_s=600))
     if not q:
         I.append(inst("fox[n=2,len<=4]", 'harness.c05', 'fox', dict(n=2, maxlen=4), weight=100, timeout_s=1500))
     I.append(inst("cocycle[n=2]", 'harness.c05', 'cocycle', dict(n=2)))
